@@ -216,8 +216,9 @@ def _hyp_settings(n, shrink=False):
                     print_blob=False, verbosity=__import__("hypothesis").Verbosity.quiet)
 
 
-def run_shard(prop, arm_name, tier, k, nshards, n, seed):
-    """Executed in a fresh worker process."""
+def run_shard(prop, arm_name, tier, k, nshards, n, seed, journal=None):
+    """Executed in a fresh worker process.  journal: path that receives the pickled case BEFORE it is evaluated (used when a
+    shard is re-run after its worker process died, to find the case that kills the interpreter)."""
     mod = load_check(prop)
     arm = {a.name: a for a in mod.arms(tier)}[arm_name]
     col = Collector()
@@ -225,6 +226,9 @@ def run_shard(prop, arm_name, tier, k, nshards, n, seed):
     def one(case):
         if col.stuck:
             return          # a case of this shard did not terminate: the remaining ones are not evaluated (each could take as long)
+        if journal:
+            with open(journal, "wb") as fh:
+                pickle.dump(case, fh, 4)
         ev = evaluate(arm, case)
         col.add(arm, case, ev)
         if any(f.key.startswith("no-result:cpu-time-limit") for f in ev.failures):
@@ -248,6 +252,45 @@ def run_shard(prop, arm_name, tier, k, nshards, n, seed):
     res["shard"] = k
     res["seed"] = seed
     return res
+
+
+def shard_to_file(prop, arm_name, tier, k, nshards, n, seed, outpath, journal):
+    """Run one shard with journaling and leave its result in outpath (executed with python -c in a subprocess)."""
+    res = run_shard(prop, arm_name, tier, k, nshards, n, seed, journal=journal)
+    with open(outpath + ".tmp", "wb") as fh:
+        pickle.dump(res, fh, 4)
+    os.replace(outpath + ".tmp", outpath)
+
+
+def rerun_after_crash(prop, tier, task):
+    """A worker process died (abort / segmentation fault inside the extension module, os._exit ...).  The shard is run again
+    alone in a subprocess that records every case before evaluating it.  -> (result dict or None, harness error or None)"""
+    arm, k, ns, per, seed = task
+    base = tempfile.mktemp(prefix="verif-crash-", dir="/var/tmp")
+    out, journal = base + ".res", base + ".case"
+    code = ("import sys; sys.path.insert(0, %r); from vlib import runner; runner.setup_paths(); "
+            "runner.shard_to_file(%r, %r, %r, %d, %d, %d, %d, %r, %r)" % (VERIF, prop, arm.name, tier, k, ns, per, seed, out, journal))
+    try:
+        try:
+            p = subprocess.run([sys.executable, "-X", "utf8", "-c", code], stdout=subprocess.DEVNULL, stderr=subprocess.PIPE, timeout=3600)
+            rc, err = p.returncode, p.stderr.decode("utf-8", "replace")[-600:]
+        except subprocess.TimeoutExpired:
+            return None, "arm=%s shard=%d: re-run after a worker crash did not finish" % (arm.name, k)
+        if os.path.exists(out):
+            return pickle.load(open(out, "rb")), None            # it was another shard's process that died
+        if not os.path.exists(journal):
+            return None, "arm=%s shard=%d: worker process dies before its first case (exit status %s): %s" % (arm.name, k, rc, err)
+        case = pickle.load(open(journal, "rb"))
+        sig = "signal %d" % -rc if rc < 0 else "exit status %d" % rc
+        key = "interpreter-crashed:%s" % arm.name
+        msg = "the interpreter process died (%s) while this case was being evaluated\n%s" % (sig, err[-300:])
+        res = dict(evaluations=1, cases=1, nontrivial=set(), classes={"interpreter-crashed": 1}, samples={}, wall=0.0, arm=arm.name, shard=k, seed=seed,
+                   failures={key: dict(case=pickle.dumps(case, 4), msg=msg, count=1, size=_case_size(case), index=0)})
+        return res, None
+    finally:
+        for f in (out, out + ".tmp", journal):
+            if os.path.exists(f):
+                os.remove(f)
 
 
 def shrink_worker(prop, arm_name, tier, n, seed, key, outpath):
@@ -336,6 +379,17 @@ def replay(prop, path):
     tier = rec.get("tier", "quick")
     arm = {a.name: a for a in mod.arms(tier)}[rec["arm"]]
     case = pickle.loads(base64.b64decode(rec["case_pickle_b64"]))
+    if str(rec.get("bucket", "")).startswith("interpreter-crashed:") and not os.environ.get("VERIF_REPLAY_INNER"):
+        # evaluating this case killed the interpreter: replay it in a child process
+        p = subprocess.run([sys.executable, "-X", "utf8", os.path.join(VERIF, "run_check.py"), prop, "--replay", path],
+                           env=dict(os.environ, VERIF_REPLAY_INNER="1"), stdout=subprocess.PIPE, stderr=subprocess.STDOUT)
+        out = p.stdout.decode("utf-8", "replace")
+        if p.returncode not in (0, 1):
+            print("VIOLATION property=%s replay=%s" % (prop, path))
+            print("  bucket=%s the interpreter process died again (%s)" % (rec["bucket"], "signal %d" % -p.returncode if p.returncode < 0 else "exit status %d" % p.returncode))
+            return 1
+        sys.stdout.write(out)
+        return p.returncode
     ev = evaluate(arm, case)
     known = {r["key"] for r in load_known(prop) if r.get("status") == "open"}
     kc = getattr(mod, "known_class", None)
@@ -353,7 +407,7 @@ def replay(prop, path):
     return 1 if bad else 0
 
 
-def run_regress(mod, prop, tier):
+def run_regress(mod, prop, tier, journal=None):
     """Seconds-long replay tier: committed saved inputs under regress/<ID>/*.json."""
     d = os.path.join(VERIF, "regress", prop)
     out = []   # (path, arm, case, failures)
@@ -369,10 +423,37 @@ def run_regress(mod, prop, tier):
         if arm is None:
             continue
         case = pickle.loads(base64.b64decode(rec["case_pickle_b64"]))
+        if journal:
+            with open(journal, "w") as fh:
+                fh.write(os.path.join(d, name))
         ev = evaluate(arm, case)
         n += 1
         out.append((os.path.join(d, name), arm, case, ev))
     return out, n
+
+
+def regress_and_pinned(prop, tier, journal):
+    """The replay tier and the pinned inputs of the known findings, executed in a child process (so that an input that kills
+    the interpreter is reported instead of taking the run down).  Everything returned is picklable."""
+    mod = load_check(prop)
+    reg, nreg = run_regress(mod, prop, tier, journal)
+    out = [(path, arm.name, pickle.dumps(case, 4), [(f.key, f.msg) for f in ev.failures], ev.evals) for path, arm, case, ev in reg]
+    with open(journal, "w") as fh:
+        fh.write("pinned inputs of the known findings")
+    pinned = getattr(mod, "pinned_known", None)
+    pres = {}
+    for rec in load_known(prop):
+        if rec.get("status") != "open":
+            continue
+        key = rec["key"]
+        if pinned is None:
+            pres[key] = True
+            continue
+        try:
+            pres[key] = bool(pinned(key, rec))
+        except Exception as e:
+            pres[key] = "error: %s" % safe_repr(e)
+    return out, nreg, pres
 
 
 def main(prop, tier, replay_path=None, jobs=None):
@@ -391,6 +472,7 @@ def main(prop, tier, replay_path=None, jobs=None):
             a.thorough = max(20, int(a.thorough * scale)) if a.thorough > 0 else a.thorough
     jobs = jobs or int(os.environ.get("VERIF_JOBS", "16"))
     import concurrent.futures as cf
+    from concurrent.futures.process import BrokenProcessPool
     import multiprocessing as mp
     ctx = mp.get_context("spawn")
     tasks = []
@@ -409,6 +491,7 @@ def main(prop, tier, replay_path=None, jobs=None):
                 tasks.append((arm, k, ns, per))
     results = []
     harness_errors = []
+    broken = []
     watchdog = float(os.environ.get("VERIF_WATCHDOG", "3600" if tier == "quick" else "43200"))
     with cf.ProcessPoolExecutor(max_workers=jobs, mp_context=ctx) as ex:
         futs = {}
@@ -423,6 +506,8 @@ def main(prop, tier, replay_path=None, jobs=None):
                     results.append(fut.result())
                     if os.environ.get("VERIF_DEBUG"):
                         print("debug: %.1fs arm=%s shard=%d wall=%.1f" % (time.time() - t0, arm.name, k, results[-1]["wall"]), file=sys.stderr)
+                except BrokenProcessPool:
+                    broken.append((arm, k, ns, per, s))
                 except Exception as e:
                     harness_errors.append("arm=%s shard=%d seed=%d: %s\n%s" % (
                         arm.name, k, s, safe_repr(e), "".join(traceback.format_exception(e))[-3000:]))
@@ -432,6 +517,16 @@ def main(prop, tier, replay_path=None, jobs=None):
                 f.cancel()
             for p in list(getattr(ex, "_processes", {}).values()):
                 p.kill()
+
+    if broken:
+        # a worker process died and took the pool with it: every unfinished shard is run again on its own
+        from concurrent.futures import ThreadPoolExecutor
+        with ThreadPoolExecutor(max_workers=jobs) as tp:
+            for res, herr in tp.map(lambda t: rerun_after_crash(prop, tier, t), broken):
+                if res is not None:
+                    results.append(res)
+                if herr:
+                    harness_errors.append(herr)
 
     # merge
     evaluations = 0
@@ -466,12 +561,28 @@ def main(prop, tier, replay_path=None, jobs=None):
 
     # regress tier
     armmap = {a.name: a for a in arms}
-    reg, nreg = run_regress(mod, prop, tier)
     regress_fail = []
-    for path, arm, case, ev in reg:
-        evaluations += ev.evals
-        for f in ev.failures:
-            regress_fail.append((path, arm, case, f))
+    nreg = 0
+    pinned_results = None
+    journal = tempfile.mktemp(prefix="verif-regress-", dir="/var/tmp")
+    try:
+        with cf.ProcessPoolExecutor(max_workers=1, mp_context=ctx) as ex1:
+            reg, nreg, pinned_results = ex1.submit(regress_and_pinned, prop, tier, journal).result()
+        for path, arm_name, case_p, fails, evals in reg:
+            evaluations += evals
+            for fkey, fmsg in fails:
+                regress_fail.append((path, armmap[arm_name], pickle.loads(case_p), Failure(fkey, fmsg)))
+    except BrokenProcessPool:
+        where = open(journal).read() if os.path.exists(journal) else ""
+        if where.endswith(".json") and os.path.exists(where):
+            rec0 = json.load(open(where, encoding="utf-8"))
+            regress_fail.append((where, armmap[rec0["arm"]], pickle.loads(base64.b64decode(rec0["case_pickle_b64"])),
+                                 Failure("interpreter-crashed:%s" % rec0["arm"], "the interpreter process died while this saved input was being replayed")))
+        else:
+            harness_errors.append("the child process replaying the saved inputs died (%s)" % (where or "before the first input"))
+    finally:
+        if os.path.exists(journal):
+            os.remove(journal)
 
     known = load_known(prop)
     open_keys = {r["key"]: r for r in known if r.get("status") == "open"}
@@ -497,11 +608,13 @@ def main(prop, tier, replay_path=None, jobs=None):
     pinned = getattr(mod, "pinned_known", None)
     for key, rec in open_keys.items():
         still = True
-        if pinned is not None:
-            try:
-                still = bool(pinned(key, rec))
-            except Exception as e:
-                harness_errors.append("pinned_known(%s): %s" % (key, safe_repr(e)))
+        if pinned_results is not None:
+            still = pinned_results.get(key, True)
+            if isinstance(still, str):
+                harness_errors.append("pinned_known(%s): %s" % (key, still))
+                still = True
+        else:
+            still = True        # the child process died before the pinned inputs were run (reported above)
         if still:
             known_lines.append("KNOWN-FINDING: property=%s %s: %s" % (prop, key, rec.get("what", "")))
         else:
